@@ -405,6 +405,80 @@ def run_history(c, job):
     return H
 
 
+def run_step(c, job):
+    """Layer B: one (external call ; execute()) from an arbitrary internal state satisfying the representation
+    invariant.  Returns (H, pre) or None when the private attributes this needs do not exist on the tree under
+    test (then the claim simply stays bounded by K: no alarm)."""
+    cfg = job["cfg"]
+    clock = Clock(c)
+    install_env(c, clock)
+    H = Recorder(c, None, cfg)
+    H.clock = clock
+    sm, meta = make_machine(c, job, H)
+    P = "_StateMachine__"
+    need = [P + "states", P + "should_engage", P + "engaged", P + "state", P + "start", P + "default_state"]
+    if not all(hasattr(sm, a) for a in need):
+        return None
+    states = getattr(sm, P + "states")
+    if not all(hasattr(sd, a) for sd in states.values() for a in ("ran", "expires", "must_finish", "name")):
+        return None
+    now0 = clock.t
+    # --- symbolic pre-state under the invariant ----------------------------------------
+    setattr(sm, P + "should_engage", False)  # Inv: the request flag is cleared at every iteration boundary
+    start = c.real("pre_start", 0, 1000)
+    c.assume(start <= now0)
+    setattr(sm, P + "start", start)
+    names = list(states)
+    k = c.choose("pre_state", len(names) + 1)
+    cur = None if k == len(names) else states[names[k]]
+    setattr(sm, P + "state", cur)
+    # Inv: the machine is engaged exactly while it is inside a non-default state (done() clears both, the
+    # fallback to the default state goes through done(), the first engaged iteration sets the flag)
+    engaged = cur is not None and meta[cur.name]["kind"] != "default"
+    setattr(sm, P + "engaged", engaged)
+    sm.current_state = cur.name if (cur is not None and meta[cur.name]["kind"] != "default") else ""
+    for n, sd in states.items():
+        sd.ran = bool(c.boolean(f"pre_ran_{n}"))
+        st = c.real(f"pre_st_{n}", 0, 1000)
+        sd.start_time = st
+        if meta[n]["timed"]:
+            ex = c.real(f"pre_ex_{n}", 0, 2000)
+            c.assume(ex >= st)
+            sd.expires = ex
+        else:
+            sd.expires = st + 0xFFFFFFFF  # Inv: an untimed state never expires within the horizon
+    pre = dict(engaged=engaged, state=cur.name if cur else None)
+    # --- one iteration ---------------------------------------------------------------------
+    menu = ext_menu(meta, cfg)
+    it = Iter(0)
+    H.iters.append(it)
+    it.start_seq = H.nextseq()
+    kk = c.choose("ext", len(menu))
+    op, tgt, force = menu[kk]
+    it.ext.append((op, tgt, force))
+    if op == "engage":
+        kw = {}
+        if tgt is not None:
+            kw["initial_state"] = tgt
+        if force:
+            kw["force"] = True
+        sm.engage(**kw)
+    elif op == "done":
+        sm.done()
+    elif op == "on_disable":
+        sm.on_disable()
+    it.exec_seq = H.nextseq()
+    try:
+        sm.execute()
+    except Exception as e:
+        it.raised = repr(e)[:200]
+    it.after = (sm.is_executing, sm.current_state, nt_current_state(H))
+    post = dict(should_engage=getattr(sm, P + "should_engage"),
+                untimed_ok=[(n, sd.ran, sd.expires, sd.start_time) for n, sd in states.items() if not meta[n]["timed"]])
+    c.summary = lambda: dict(step=True, pre=pre, ext=it.ext, calls=[x.desc() for x in it.calls])
+    return H, pre, post
+
+
 def run_asm_history(c, job):
     """AutonomousStateMachine: a symbolic sequence of on_enable / on_iteration / on_disable calls
     (on_enable first; on_enable is not issued while the machine is still running)."""
